@@ -410,6 +410,7 @@ pub proof fn lemma_repl_step_replen(rc: Rc, m: LzS, w: Win, pos_state: nat, upd:
         None => true,
     },
 {
+    reveal(sp_step_replen);
     lemma_repl_len(rc, m.rep_len, pos_state, upd, inp2);
 }
 
@@ -420,6 +421,7 @@ pub proof fn lemma_repl_step_match(rc: Rc, m: LzS, w: Win, pos_state: nat, upd: 
         None => true,
     },
 {
+    reveal(sp_step_match);
     lemma_repl_len(rc, m.len, pos_state, upd, inp2);
     match sp_len(rc, m.len, pos_state, upd) {
         None => {},
@@ -450,8 +452,8 @@ pub proof fn lemma_repl_step_rep(rc: Rc, m: LzS, w: Win, pos_state: nat, upd: bo
         None => true,
     },
 {
-    hide(sp_step_replen);
     hide(sp_bit);
+    reveal(sp_step_rep);
     let s = m.state;
     lemma_repl_bit(rc, m.is_rep_g0[s as int], upd, inp2);
     match sp_bit(rc, m.is_rep_g0[s as int], upd) {
@@ -553,8 +555,6 @@ pub proof fn lemma_repl_step(rc: Rc, m: LzS, w: Win, upd: bool, inp2: Seq<u8>)
         None => true,
     },
 {
-    hide(sp_step_rep);
-    hide(sp_step_match);
     hide(sp_bit);
     let pos_state: nat = w.hist % pow2(m.pb);
     let i_match: nat = m.state * 16 + pos_state;
